@@ -36,7 +36,7 @@ MustList(lvl) ==
   \cup UNION {{p.metavar, p.help} : p \in PosItemsOf(lvl)}
   \* a command is listed with its help text or, lacking one, with the whole first line of its description
   \cup UNION {{c.names[1]} \cup (IF c.help # "" THEN {c.help} ELSE IF "listed" \in DOMAIN c THEN RangeOf(c.listed) ELSE {})
-              : c \in LevelCmds(lvl)}
+              : c \in VisibleCmds(lvl)}
   \cup RangeOf(lvl.help_names) \cup (IF lvl.version THEN RangeOf(lvl.ver_names) ELSE {})
 \* what must appear nowhere in the text
 MustNotMention(lvl) ==
@@ -44,7 +44,8 @@ MustNotMention(lvl) ==
          \cup (IF "show_default" \in DOMAIN it /\ it.show_default = "format" THEN {"FMT-" \o it.id} ELSE {})
          : it \in {x \in LeavesOf(lvl) : Hidden(x)}}
   \cup UNION {AliasNames(it) : it \in {x \in LeavesOf(lvl) : ~Hidden(x)}}
-  \cup UNION {RangeOf(Tail(c.names)) : c \in LevelCmds(lvl)}
+  \cup UNION {RangeOf(Tail(c.names)) : c \in VisibleCmds(lvl)}
+  \cup UNION {RangeOf(c.names) \cup (IF c.help # "" THEN {c.help} ELSE {}) : c \in LevelCmds(lvl) \ VisibleCmds(lvl)}
 \* ---- sections: under which heading an item is listed.  An item under a header of its own (`group_help` on the item
 \* or on the field - choice, group - it belongs to, or the header a level gives its commands together with the option
 \* declared before them) is listed under that header; every other option under "Available options", positional under
@@ -65,12 +66,12 @@ SectionPairs(lvl) ==
   \cup (IF lvl.tail.kind = "pos"
         THEN {<<p.metavar, IF HasGH(p) THEN GHead(p) ELSE "positional">> : p \in {x \in RangeOf(lvl.tail.items) : ~Hidden(x)}}
         ELSE {})
-  \cup {<<c.names[1], IF CmdGroup(lvl) THEN lvl.tail.grouped ELSE "commands">> : c \in LevelCmds(lvl)}
+  \cup {<<c.names[1], IF CmdGroup(lvl) THEN lvl.tail.grouped ELSE "commands">> : c \in VisibleCmds(lvl)}
 \* r.sections : sequence of [head : tokens of the heading line, items : tokens of the item lines below it]
 Misplaced(lvl, r) ==
   {p \in SectionPairs(lvl) : ~\E i \in DOMAIN r.sections : p[2] \in RangeOf(r.sections[i].head) /\ p[1] \in RangeOf(r.sections[i].items)}
 \* name-like tokens allowed in the item lists
-MayList(lvl) == MustList(lvl) \cup UNION {RangeOf(c.shorts) : c \in LevelCmds(lvl)}
+MayList(lvl) == MustList(lvl) \cup UNION {RangeOf(c.shorts) : c \in VisibleCmds(lvl)}
 
 RECURSIVE LevelAt(_, _)
 LevelAt(lvl, path) == IF path = <<>> THEN lvl
@@ -78,6 +79,8 @@ LevelAt(lvl, path) == IF path = <<>> THEN lvl
 RECURSIVE AllPaths(_)
 AllPaths(lvl) == {<<>>} \cup UNION {{<<c.names[1]>> \o p : p \in AllPaths(c.level)} : c \in LevelCmds(lvl)}
 
+RECURSIVE VisiblePaths(_)
+VisiblePaths(lvl) == {<<>>} \cup UNION {{<<c.names[1]>> \o p : p \in VisiblePaths(c.level)} : c \in VisibleCmds(lvl)}
 \* ---- trace: one record per rendered level
 \* [def, path, kind \in {"help","markdown","html","manpage"}, items : tokens of the item lines,
 \*  all : every token of the text, order : [descr, usage, header, items, footer] line numbers (0 = absent)]
@@ -102,7 +105,7 @@ Problems(r) ==
    \* literally, a manpage as its SYNOPSIS; a line supplied by the program aside)
    docusage  |-> IF r.kind \in {"markdown", "html", "manpage"} /\ "usages" \in DOMAIN r
                  THEN {UsageLineS(LevelAt(DefById(r.def), p), p, "") :
-                         p \in {q \in AllPaths(DefById(r.def)) : "usage_token" \notin DOMAIN LevelAt(DefById(r.def), q)}} \ RangeOf(r.usages)
+                         p \in {q \in VisiblePaths(DefById(r.def)) : "usage_token" \notin DOMAIN LevelAt(DefById(r.def), q)}} \ RangeOf(r.usages)
                  ELSE {},
    misplaced |-> IF r.kind = "help" /\ "sections" \in DOMAIN r THEN Misplaced(lvl, r) ELSE {},
    order     |-> IF r.kind # "help" THEN TRUE
